@@ -7,11 +7,12 @@ import (
 )
 
 func TestVerifC19(t *testing.T) {
-	parts := []explore.Part{
-		c19FieldsPart("fields-request", c19Req),
-		c19FieldsPart("fields-response", c19Rsp),
-		c19FieldsPart("fields-trailer", c19Trl),
+	// cheapest parts first: the internal deadline, if it ever strikes, cuts the largest one
+	parts := append(c19WriterParts(),
 		c19WirePart(),
-	}
-	explore.Main("C19", append(parts, c19WriterParts()...), func(msg string) { t.Fatal(msg) })
+		c19FieldsPart("fields-trailer", c19Trl),
+		c19FieldsPart("fields-response", c19Rsp),
+		c19FieldsPart("fields-request", c19Req),
+	)
+	explore.Main("C19", parts, func(msg string) { t.Fatal(msg) })
 }
